@@ -168,7 +168,7 @@ theorem endLe_spec (s : Src) (hs : s.HintOk) (x : Nat) (h : endLe s.last x = tru
   | none => simp [hlast] at h
   | some up =>
     simp [hlast] at h
-    have := hs.1 up hlast c hc
+    have := (hs.1 up hlast).2 c hc
     omega
 
 /-- `MinusRangeIter` (repaired): whatever consistent `peek_last` hints the operands advertise, the
@@ -241,7 +241,7 @@ theorem orItems_eq (l r : Src) (hr : r.HintOk) (cl : Canon l.items) (cr : Canon 
       symm
       apply unionLoop_all_right l0 cl.2.1
       intro c hc
-      have := hr.1 lastRight h1 c hc
+      have := (hr.1 lastRight h1).2 c hc
       exact ⟨canon_nonempty cr c hc, by omega⟩
     · rfl
   · rfl
